@@ -329,7 +329,7 @@ def fail_task(rng, table, t, base, all_attempts=True):
 
 def gen_plan(rng):
     rounds = []
-    for _ in range(rng.choice([1, 1, 2, 2, 3])):
+    for _ in range(rng.choice([1, 1, 2, 2, 3, 4])):
         r = rng.random()
         op = 'rerun' if r < 0.72 else 'skip'
         rounds.append({'op': op, 'reset': rng.random() < 0.6, 'cls': rng.choice(['cause'] * 8 + ['parent', 'joinfail']),
@@ -338,7 +338,45 @@ def gen_plan(rng):
     return rounds
 
 
-# ============================================================================== driving
+def gen_join_retry_case(rng):
+    """focus population: a `join` task with a retry policy that fails (by its own action or by its inbound
+    tasks) and is rerun several times (3-5 rounds, new attempts failing / mixed / ok), interleaved with reruns of
+    the causes: repeated reruns of joins with leftover policy state"""
+    for _ in range(200):
+        prog = gen_prog(rng)
+        joins = [t for wf in prog['wfs'] for t in wf['tasks'] if t.get('join') and t['kind'] != 'sub']
+        if joins:
+            break
+    else:
+        return None
+    j = rng.choice(joins)
+    for x in ('items', 'concurrency', 'value'):
+        j.pop(x, None)
+    j['kind'] = 'retry'
+    j['retry'] = rng.randint(1, 2)
+    if j.get('publish') and list(j['publish'].values())[0] == ['res']:
+        pass
+    if rng.random() < 0.55:
+        table = {}
+        fail_task(rng, table, j, 0, all_attempts=rng.random() < 0.7)     # the join's own action fails
+        if not table:
+            table[(j['name'], 0, 0)] = ['error']
+        if rng.random() < 0.3:
+            table.update(gen_first_failures(rng, prog))
+    else:
+        table = gen_first_failures(rng, prog)                            # (mostly) failed by its inbound tasks
+    rounds = []
+    for _ in range(rng.randint(3, 5)):
+        rounds.append({'op': 'rerun' if rng.random() < 0.9 else 'skip', 'reset': rng.random() < 0.5,
+                       'cls': rng.choice(['cause'] * 5 + ['joinfail'] * 3 + ['parent']),
+                       'pick': rng.randrange(1000), 'new': rng.choice(['ok', 'fail', 'mixed', 'mixed']),
+                       'seed': rng.getrandbits(30), 'prefer': j['name']})
+    nested = len(prog['wfs']) > 1
+    return {'prog': prog, 'table': table_to_json(table), 'plan': rounds, 'seed': rng.getrandbits(30),
+            'policy': rng.choice(['random', 'random', 'fifo', 'lifo']), 'slow_dispatcher': False,
+            'early': nested and rng.random() < 0.2, 'focus': 'join-retry'}
+
+
 def early_point(snap):
     """a rerun target exists while the root is still RUNNING: an ERROR task of a sub-workflow execution that
     ended in ERROR and has already been reported to its parent task (parent task ERROR), with another branch of
@@ -559,6 +597,12 @@ def run_case(ctx, case, drv, want_reference=True, guard_checks=True):
         if not cands:
             break
         tgt = cands[rnd['pick'] % len(cands)]
+        if rnd.get('prefer'):
+            # focus cases: the named task whenever it is among the failed ones (whatever its class)
+            pref = [t for t in err_tasks if t['name'] == rnd['prefer']]
+            if pref and rnd['pick'] % 4:
+                tgt = pref[0]
+                res.feats.add('focus-target')
         kind = 'parent' if tgt in cls['parent'] else 'cause' if tgt in cls['cause'] else 'joinfail'
         tspec = sidx[tgt['name']][0]
         skip = rnd['op'] == 'skip'
@@ -611,6 +655,13 @@ def run_case(ctx, case, drv, want_reference=True, guard_checks=True):
                     info['triggers'].add('stale-published')
             if kind == 'joinfail':
                 ref_ok = False
+            if tspec.get('join') and not join_satisfied(sidx, s0, tgt):
+                # a join failed by its inbound tasks that is rerun DIRECTLY (also one that already ran an action in
+                # an earlier such rerun, or a sub-workflow join that never got a child execution): the engine runs
+                # it without its preconditions; a run in which it "produced its new result the first time" does not
+                # exist, so there is no reference outcome
+                ref_ok = False
+                res.feats.add('join-rerun-preconditions-unsatisfied')
         else:
             ref_ok = False
         # ---- model: the command
@@ -705,7 +756,7 @@ def run_case(ctx, case, drv, want_reference=True, guard_checks=True):
         if not skip and tspec['kind'] == 'items' and kind == 'cause':
             monitor_items(res, s0, s3, tgt, tspec, reset, failed_idx, info)
         if not skip and tspec['kind'] == 'retry' and kind == 'cause':
-            monitor_retry_budget(res, s0, s3, tgt, tspec, orc, bases, info)
+            monitor_retry_budget(res, s0, s3, tgt, tspec, orc, bases, info, sidx)
     final = world.snapshot()
     res.final = final
     res.applied = applied
@@ -841,9 +892,39 @@ def monitor_items(res, s0, s3, tgt, tspec, reset, failed_idx, info):
         res.hits.append(('items-reexecuted', it, sig))
 
 
-def monitor_retry_budget(res, s0, s3, tgt, tspec, orc, bases, info):
+COMPLETED_STATES = ('SUCCESS', 'ERROR', 'CANCELLED', 'SKIPPED')
+
+
+def join_satisfied(sidx, s0, tgt):
+    """the preconditions of the join `tgt` hold on the rows of `s0`: every inbound task (a task of the same
+    workflow with an on-clause naming it) has a completed execution that routed to it"""
+    wf_name = sidx[tgt['name']][1]
+    inbound = [t['name'] for (t, w) in sidx.values() if w == wf_name and
+               any(tgt['name'] in (t.get(cl) or []) for cl in ('on_success', 'on_error', 'on_complete', 'on_skip'))]
+    for n in inbound:
+        rows = [t for t in s0['tasks'] if t['name'] == n and t['wf'] == tgt['wf']]
+        if not rows:
+            return False
+        r = max(rows, key=lambda t: t['ord'])
+        if r['state'] not in COMPLETED_STATES or tgt['name'] not in [x[0] for x in r['next_tasks']]:
+            return False
+    return True
+
+
+def monitor_retry_budget(res, s0, s3, tgt, tspec, orc, bases, info, sidx=None):
     """'as if the task had produced its new result the first time' for a task with a retry policy: the
-    new attempt has the full retry budget (leftover policy state of the failed attempt is gone)"""
+    new attempt has the full retry budget (leftover policy state of the failed attempt is gone).
+    A `join` is retried through its precondition check (RetryPolicy puts it back to WAITING and schedules
+    _refresh_task_state): the clause reads on a join only while its preconditions hold.  A join that was
+    failed BY ITS INBOUND TASKS and is rerun directly (the engine runs it without its preconditions; a run in
+    which it 'produced its new result the first time' does not exist) fails again at the first re-check: the
+    statement says nothing about the number of attempts then."""
+    if tspec.get('join'):
+        if sidx is None or not join_satisfied(sidx, s0, tgt):
+            res.feats.add('retry-budget:join-preconditions-unsatisfied')
+            return
+        res.feats.add('retry-budget:join')
+    res.feats.add('retry-budget:checked')
     old = {a['ord'] for a in s0['actions']}
     n_new = len([a for a in s3['actions'] if a['task'] == tgt['ord'] and a['ord'] not in old])
     b = bases.get((tgt['name'], 0), 0)
@@ -854,7 +935,8 @@ def monitor_retry_budget(res, s0, s3, tgt, tspec, orc, bases, info):
             break
     t3 = [t for t in s3['tasks'] if t['ord'] == tgt['ord']][0]
     if t3['state'] in ('SUCCESS', 'ERROR') and n_new != want:
-        res.hits.append(('retry-budget', {'what': 'attempts of the rerun', 'got': n_new, 'want': want},
+        res.hits.append(('retry-budget', {'what': 'attempts of the rerun', 'got': n_new, 'want': want,
+                                          'join': bool(tspec.get('join'))},
                          {'kind': 'retry-budget', 'what': 'fewer' if n_new < want else 'more'}))
 
 
@@ -972,6 +1054,10 @@ def rest_err(r):
 
 # ============================================================================== stream
 def gen_case(rng):
+    if rng.random() < 0.2:
+        c = gen_join_retry_case(rng)
+        if c is not None:
+            return c
     prog = gen_prog(rng)
     table = gen_first_failures(rng, prog)
     nested = len(prog['wfs']) > 1
@@ -985,6 +1071,8 @@ def report(ctx, case, res):
     for f in res.feats:
         ctx.count('rerun', 'feat:' + f.split(':rest')[0] if not f.startswith('rest:') else f)
     ctx.count('rerun', 'ops:%d' % res.ops)
+    if case.get('focus'):
+        ctx.count('rerun', 'focus:' + case['focus'])
     if res.final['wfs']:
         ctx.count('rerun', 'final:' + res.final['wfs'][0]['state'])
     key = [res.yaml, case['table'], case['plan'], case['seed']]
